@@ -113,10 +113,13 @@ func body(keep int) func(c *drv.Ctx) {
 // environment choices of the explorer): every batch in its own client thread, started when everything
 // the previous one set in motion has settled. After a clean Close every rollback point offered is
 // exercised (see after).
-func bodyGatedFamily(conf map[string]interface{}, words []string) func(c *drv.Ctx) {
+func bodyGatedFamily(conf map[string]interface{}, words []string, gated bool) func(c *drv.Ctx) {
 	menu := fgate.Menu() // quick: single gates; thorough: persister+merger pairs as well
 	if mc.Tier() == "thorough" {
 		menu = fgate.MenuPairs()
+	}
+	if !gated {
+		menu = menu[:1]
 	}
 	return func(c *drv.Ctx) {
 		word := words[vrt.Choose(len(words), "workload")]
@@ -292,14 +295,22 @@ func Scenarios() []drv.Scenario {
 	if mc.Tier() != "thorough" {
 		words = lww.Words("bdz", 2) // every rollback point of every execution is rolled back to and reopened: keep quick small
 	}
+	plainWords := lww.Words("ubdwxz", 2)
+	if mc.Tier() == "thorough" {
+		plainWords = lww.Words(lww.FamilyAlphabet+"z", 3)
+	}
 	gdoc := "gated workload family: every word over the batch-shape alphabet x every member of the gate menu (single gates, persister+merger pairs) x numSnapshotsToKeep {2,10} (environment choices); after a clean Close EVERY rollback point offered is rolled back to on a copy, opened, compared with the model state its internal value names, written to and reopened"
 	return []drv.Scenario{
 		{Name: "sched:gated-family-unsafe-2-persister-workers", Doc: gdoc, After: after, Class: "sched", Quick: d0, Thorough: d0,
-			Body: bodyGatedFamily(map[string]interface{}{"unsafe_batch": true, "scorchPersisterOptions": map[string]interface{}{"NumPersisterWorkers": 2, "MaxSizeInMemoryMergePerWorker": 1}}, words)},
+			Body: bodyGatedFamily(map[string]interface{}{"unsafe_batch": true, "scorchPersisterOptions": map[string]interface{}{"NumPersisterWorkers": 2, "MaxSizeInMemoryMergePerWorker": 1}}, words, true)},
 		{Name: "sched:gated-family-safe-default-merges", Doc: gdoc, After: after, Class: "sched", Thorough: d0,
-			Body: bodyGatedFamily(nil, words)},
+			Body: bodyGatedFamily(nil, words, true)},
 		{Name: "sched:gated-family-safe-nomerge", Doc: gdoc, After: after, Class: "sched", Thorough: d0,
-			Body: bodyGatedFamily(map[string]interface{}{"scorchMergePlanOptions": bx.NoMergePlan}, words)},
+			Body: bodyGatedFamily(map[string]interface{}{"scorchMergePlanOptions": bx.NoMergePlan}, words, true)},
+		{Name: "sched:family-safe-nomerge", Doc: "un-gated workload family with merging suppressed: every word over the batch-shape alphabet x numSnapshotsToKeep {2,10}; the recorded snapshots keep several segments with DIFFERENT deletion bitmaps; every rollback point is exercised", After: after, Class: "sched", Quick: d0, Thorough: d0,
+			Body: bodyGatedFamily(map[string]interface{}{"scorchMergePlanOptions": bx.NoMergePlan}, plainWords, false)},
+		{Name: "sched:family-safe-partial-merges", Doc: "the same with the partial merge plan (kept segments with deletions next to merged ones)", After: after, Class: "sched", Quick: d0, Thorough: d0,
+			Body: bodyGatedFamily(map[string]interface{}{"scorchMergePlanOptions": bx.PartialMergePlan}, plainWords, false)},
 		{Name: "sched:unsafe-inmemory-merge-window-keep10", Body: body(10), After: after, Class: "sched",
 			Quick: []drv.Phase{{Bound: 1, Filter: "restricted"}}, Thorough: []drv.Phase{{Bound: 1}, {Bound: 2, Filter: "restricted"}}},
 		{Name: "sched:unsafe-inmemory-merge-window-keep2", Body: body(2), After: after, Class: "sched",
